@@ -46,7 +46,10 @@ Fixpoint rewrap (s : stack) : St (prov_of s) -> St (prov_of s) :=
   | SFmtE s' => fun x => (rewrap s' (fst x), snd x)
   end.
 
-Inductive hop := Op (o : op) | Rewrap.
+(* QOpt: Query with options.  [sup = true]: only WithPageSize (performance only: same answer as Query); [sup = false]:
+   WithInitialPageNum / WithSortOrder, which mem and leveldb document as unsupported: an error, through every wrapper
+   (a wrapper must hand the options down, not drop them) *)
+Inductive hop := Op (o : op) | Rewrap | QOpt (q : list crit) (sup : bool).
 
 (* --- comparison of outputs --- *)
 Fixpoint list_eqb {A} (eqb : A -> A -> bool) (a b : list A) : bool :=
@@ -87,6 +90,7 @@ Fixpoint check_model (P : prov) (rw : St P -> St P) (s : St P) (steps : list (ho
   | [] => true
   | (Op o, x) :: r => let '(s1, y) := step P s o in out_eqb x y && check_model P rw s1 r
   | (Rewrap, x) :: r => let '(s1, y) := step P s Flush in out_eqb x y && check_model P rw (rw s1) r
+  | (QOpt q sup, x) :: r => let '(s1, y) := step P s (Query q) in out_eqb x (if sup then y else OErr) && check_model P rw s1 r
   end.
 
 Fixpoint spec_agrees (persist conj : bool) (a : store) (steps : list (hop * out)) : bool :=
@@ -96,6 +100,9 @@ Fixpoint spec_agrees (persist conj : bool) (a : store) (steps : list (hop * out)
       let '(a1, y) := spec_step persist a o in
       (negb (in_contract conj o) || out_eqb x y) && spec_agrees persist conj a1 r
   | (Rewrap, x) :: r => out_eqb x ODone && spec_agrees persist conj a r
+  | (QOpt q sup, x) :: r =>
+      let '(a1, y) := spec_step persist a (Query q) in
+      (negb (in_contract conj (Query q)) || out_eqb x (if sup then y else OErr)) && spec_agrees persist conj a1 r
   end.
 
 Definition check_case (c : case) : bool :=
